@@ -75,6 +75,8 @@ class Analysis:
         self.body = body or fn.body
         self.sites = []    # (bb, line, variant, interval value)
         self.casts = []    # (target type, source interval) for every IntToInt cast seen (last visit)
+        self.returns = []  # (value assigned to _0, env at that point)
+        self._derefs_param = {}   # local -> True when it was assigned `*_1` (copy of the by-ref argument)
 
     def local_ty(self, l):
         return self.body.locals[l]["ty"]
@@ -124,11 +126,36 @@ class Analysis:
         k = op.get("k")
         if k and "int" in k:
             return I(k["int"], k["int"])
+        if k and "promoted" in k and k["promoted"] < len(self.fn.promoted):
+            return self.promoted_value(self.fn.promoted[k["promoted"]])
+        return TOP
+
+    def promoted_value(self, body):
+        """A promoted constant: recognise RangeInclusive { start, end, .. } / RangeInclusive::new(lo, hi)."""
+        for blk in body.blocks:
+            for s in blk["s"]:
+                if s["k"] == "assign" and s["r"]["k"] == "agg" and s["r"].get("adt", "").endswith("RangeInclusive"):
+                    ops = [o.get("k", {}).get("int") for o in s["r"]["ops"][:2]]
+                    if None not in ops:
+                        return ("range", ops[0], ops[1])
+            t = blk["t"]
+            if t["k"] == "call" and (t.get("cpath") or "").endswith("RangeInclusive::<Idx>::new"):
+                ops = [a.get("k", {}).get("int") for a in t["args"][:2]]
+                if None not in ops:
+                    return ("range", ops[0], ops[1])
         return TOP
 
     def rvalue(self, env, r, dest):
         k = r["k"]
         if k == "use":
+            p = mir.op_place(r["o"])
+            if p is not None and p[0] == 1 and p[1] == ["*"] and dest is not None:
+                self._derefs_param[dest] = True
+                v = env.get(("deref", 1))
+                if v is not None:
+                    return v
+                tr = TYPE_RANGE.get(self.local_ty(dest))
+                return I(tr[0], tr[1]) if tr else TOP
             return self.operand(env, r["o"])
         if k in ("copyderef",):
             return self.read(env, r["p"])
@@ -164,7 +191,8 @@ class Analysis:
                 tr = TYPE_RANGE.get(r["ty"])
                 if tr and tr[0] <= a[1] and a[2] <= tr[1]:
                     return a
-                return I(tr[0], tr[1], a[3]) if tr else TOP
+                # a narrowing `as` may wrap: the result is only known to fit the target machine type
+                return I(tr[0], tr[1], True) if tr else TOP
             if ck == "FloatToInt":
                 tr = TYPE_RANGE.get(r["ty"])
                 return I(tr[0], tr[1]) if tr else TOP
@@ -191,6 +219,36 @@ class Analysis:
         cp = t.get("cpath") or ""
         name = cp.split("::")[-1]
         args = [self.operand(env, a) for a in t["args"]]
+        if cp.endswith("RangeInclusive::<Idx>::new") and len(args) == 2 and is_int(args[0]) and is_int(args[1]):
+            return ("range", args[0][1], args[1][2])
+        if name == "contains" and "RangeInclusive" in cp and len(args) == 2 and args[0][0] == "range":
+            p = mir.op_place(t["args"][1])
+            la = self.root(env, p[0]) if p is not None else None
+            if la is not None:
+                # the needle is usually `&*param`: refine the pointee
+                d = self.body.single_def(p[0])
+                if d is not None and d[1] != "T" and d[2]["r"]["k"] == "ref" and d[2]["r"]["p"][1] == ["*"] \
+                        and d[2]["r"]["p"][0] <= self.fn.argc:
+                    la = ("deref", d[2]["r"]["p"][0])
+                return ("inrange", la, args[0][1], args[0][2])
+        callee = self.prog.fns.get(mir.callee_of(t))
+        if callee is not None and callee.kind != "const" and callee.argc == 1 and \
+                self.body.locals[t["d"][0]]["ty"] == "bool" and len(t["args"]) == 1:
+            ps = pred_summary(self.prog, callee)
+            p = mir.op_place(t["args"][0])
+            if ps is not None and p is not None:
+                la = self.root(env, p[0])
+                d = self.body.single_def(p[0])
+                if d is not None and d[1] != "T" and d[2]["r"]["k"] == "ref":
+                    rp = d[2]["r"]["p"]
+                    if not rp[1]:
+                        la = self.root(env, rp[0])
+                    elif rp[1] == ["*"] and rp[0] <= self.fn.argc:
+                        la = ("deref", rp[0])
+                return ("inrange", la, ps[0], ps[1])
+            if p is not None:
+                # an unknown predicate tells nothing about its argument
+                return TOP
         dest_ty = self.local_ty(t["d"][0])
         if cp.startswith("core::num::") or cp.startswith("std::") and "::num::" in cp or \
                 (len(cp.split("::")) >= 2 and cp.split("::")[-2].split("<")[0] in TYPE_RANGE):
@@ -226,6 +284,18 @@ class Analysis:
 
     def refine(self, env, cond, truth):
         """cond = ('cmp', op, la, a, lb, b): narrow la / lb when the other side is a constant."""
+        if cond[0] == "inrange":
+            if not truth:
+                return env
+            env = dict(env)
+            _k, la, lo, hi = cond
+            for l in [la] + [k[1] for k in env if isinstance(k, tuple) and k[0] == "copyof" and env[k] == la]:
+                cur = env.get(l)
+                if cur is None or not is_int(cur):
+                    tr = TYPE_RANGE.get(self.local_ty(l).lstrip("&")) if isinstance(l, int) else None
+                    cur = I(tr[0], tr[1]) if tr else I(lo, hi)
+                env[l] = I(max(cur[1], lo), min(cur[2], hi), cur[3])
+            return env
         if cond[0] != "cmp":
             return env
         _c, op, la, a, lb, b = cond
@@ -288,6 +358,8 @@ class Analysis:
                 del self.sites[n0:]
                 if not s["p"][1]:
                     d = s["p"][0]
+                    if d == 0:
+                        self.returns.append((v, dict(env)))
                     env[d] = v
                     # d is redefined: forget copies of / from it
                     for k in [k for k in env if isinstance(k, tuple) and k[0] == "copyof" and (k[1] == d or env[k] == d)]:
@@ -296,6 +368,11 @@ class Analysis:
                         sp = mir.op_place(s["r"]["o"])
                         if sp is not None and not sp[1]:
                             env[("copyof", d)] = sp[0]
+                        elif sp is not None and sp[1] == ["*"] and sp[0] <= self.fn.argc:
+                            # every read of *param denotes the same value
+                            env[("copyof", d)] = ("deref", sp[0])
+                            if ("deref", sp[0]) in env:
+                                env[d] = env[("deref", sp[0])]
                 elif s["p"][0] in env:
                     env[s["p"][0]] = TOP
             t = blk["t"]
@@ -309,6 +386,8 @@ class Analysis:
                     site_vals[key] = (line, hull(site_vals[key][1], val) if key in site_vals else val)
                 del self.sites[n0:]
                 if not t["d"][1]:
+                    if t["d"][0] == 0:
+                        self.returns.append((v, dict(env)))
                     env[t["d"][0]] = v
                 if t.get("t") is not None:
                     succs.append((t["t"], env))
@@ -317,12 +396,12 @@ class Analysis:
                 cond = env.get(p[0]) if p is not None and not p[1] else None
                 for val, tgt in t["ts"]:
                     e2 = env
-                    if cond is not None and cond[0] == "cmp" and t.get("ty") == "bool":
+                    if cond is not None and cond[0] in ("cmp", "inrange") and t.get("ty") == "bool":
                         e2 = self.refine(env, cond, bool(val))
                     succs.append((tgt, e2))
                 if not mir.block_is_unreachable(body, t["else"]):
                     e2 = env
-                    if cond is not None and cond[0] == "cmp" and t.get("ty") == "bool" and len(t["ts"]) == 1:
+                    if cond is not None and cond[0] in ("cmp", "inrange") and t.get("ty") == "bool" and len(t["ts"]) == 1:
                         e2 = self.refine(env, cond, not bool(t["ts"][0][0]))
                     succs.append((t["else"], e2))
             elif t["k"] == "assert":
@@ -340,9 +419,13 @@ class Analysis:
                 else:
                     new = {}
                     for l in set(old) | set(e2):
-                        if isinstance(l, tuple):
+                        if isinstance(l, tuple) and l[0] == "copyof":
                             if l in old and l in e2 and old[l] == e2[l]:
                                 new[l] = old[l]
+                            continue
+                        if isinstance(l, tuple):
+                            if l in old and l in e2:
+                                new[l] = hull(old[l], e2[l])
                             continue
                         if l in old and l in e2:
                             h = hull(old[l], e2[l])
@@ -356,3 +439,45 @@ class Analysis:
                     if s2 not in work:
                         work.append(s2)
         return site_vals
+
+
+_PRED_MEMO = {}
+
+
+def pred_summary(prog, fn, depth=0):
+    """For a one-argument bool function: (lo, hi) such that a `true` result implies the argument
+    (looked through a reference) lies in [lo, hi]; None when nothing is implied."""
+    if fn.id in _PRED_MEMO:
+        return _PRED_MEMO[fn.id]
+    _PRED_MEMO[fn.id] = None
+    if depth > 3 or fn.argc != 1:
+        return None
+    an = Analysis(prog, fn)
+    # the parameter (or what it points to): its own local is 1; derefs read through
+    an.run()
+    lo = hi = None
+    ok = True
+    for v, env in an.returns:
+        e2 = None
+        if v[0] in ("cmp", "inrange"):
+            e2 = an.refine(env, v, True)
+        elif is_int(v) and v[1] == v[2] == 0:
+            continue            # returns false
+        elif is_int(v) and v[1] == v[2] == 1:
+            e2 = env
+        else:
+            ok = False
+            break
+        # the argument: local 1 or a copy of *local 1
+        cands = [e2.get(1), e2.get(("deref", 1))] + [e2.get(k[1]) for k in e2 if isinstance(k, tuple) and k[0] == "copyof" and e2[k] in (1, ("deref", 1))]
+        cands += [val for l, val in e2.items() if isinstance(l, int) and an._derefs_param.get(l)]
+        ints = [c for c in cands if c is not None and is_int(c)]
+        if not ints:
+            ok = False
+            break
+        best = min(ints, key=lambda c: c[2] - c[1])
+        lo = best[1] if lo is None else min(lo, best[1])
+        hi = best[2] if hi is None else max(hi, best[2])
+    res = (lo, hi) if ok and lo is not None else None
+    _PRED_MEMO[fn.id] = res
+    return res
